@@ -125,6 +125,9 @@ impl ProgProperty for C03 {
         }
         temps >= 12 || lac > 0 || imm64
     }
+    fn fuzz_target(&self) -> Option<&'static str> {
+        Some("prog_jit")
+    }
     fn floors(&self, tier: Tier) -> Vec<(&'static str, u64)> {
         let q = if tier == Tier::Quick { 1 } else { 20 };
         vec![("nontrivial", 3000 * q), ("stack-temporaries(temps>=12)", 600 * q), ("jit-forms", if tier == Tier::Quick { 60 } else { 70 })]
